@@ -1074,6 +1074,10 @@ SDcreate(int32       fid,  /* IN: file ID */
         HGOTO_ERROR(DFE_ARGS, FAIL);
     }
 
+    /* a new dataset cannot be stored in a file opened for reading only */
+    if (!(handle->flags & NC_RDWR))
+        HGOTO_ERROR(DFE_DENIED, FAIL);
+
     /* fudge the name since its optional */
     if ((name == NULL) || (name[0] == ' ') || (name[0] == '\0'))
         name = "DataSet";
